@@ -296,7 +296,11 @@ class Interp:
 
     def write_place(self, fn, fid, place, val, st):
         if not place["proj"]:
-            st.frames[fid][place["l"]] = self.coerce(fn, place["l"], val)
+            val = self.coerce(fn, place["l"], val)
+            if is_int(val) and val[6] is None and int_const(val) is None:
+                # give the value an identity so that branch refinements reach later reads of this local
+                val = with_term(val, ("loc", fid, place["l"], st.steps))
+            st.frames[fid][place["l"]] = val
             return
         loc = self.resolve(fn, fid, place, st)
         if loc is None:
